@@ -197,6 +197,10 @@ def dump(in_db, f, **options):
 
     output_names = collections.defaultdict(dict)  # type: typing.Dict[canmatrix.Frame, typing.Dict[canmatrix.Signal, str]]
 
+    # decide about the start value attribute before the first signal is visited: every signal gets it or none
+    if any(signal.initial_value != 0 or signal.phys2raw(None) != 0 for frame in db.frames for signal in frame.signals):
+        db.add_signal_defines("GenSigStartValue", 'FLOAT 0 100000000000')
+
     for frame in db.frames:
         # fix long frame names , warn if the frame name exceeds 32 characters
         if len(frame.name) > 32:
@@ -237,11 +241,10 @@ def dump(in_db, f, **options):
         for signal in frame.signals:
             if signal.cycle_time != 0:
                 signal.add_attribute("GenSigCycleTime", signal.cycle_time)
-            if signal.initial_value != 0 and "GenSigStartValue" not in db.signal_defines:
-                db.add_signal_defines("GenSigStartValue", 'FLOAT 0 100000000000')
-                
             if "GenSigStartValue" in db.signal_defines:
-                if signal.phys2raw(None) != 0:
+                # load assumes the raw value of 0 (of the minimum, if 0 is outside the limits) for a signal without start value
+                assumed_by_load = signal.phys2raw(0 if signal.min <= 0 <= signal.max else signal.min)
+                if signal.phys2raw(None) != 0 or assumed_by_load != 0:
                     if db.signal_defines["GenSigStartValue"].defaultValue is None:
                         signal.add_attribute("GenSigStartValue", signal.phys2raw(None))
                         
